@@ -21,6 +21,23 @@ def leaf_cl(out):
     if len(ifs) != 1:
         raise Untranslatable('doForEachIf: expected one if in the loop body')
     cond = kids(ifs[0])[0]
+    # the skeleton of the traversal: `while(node)`, one guarded visit `if(cond) { if(! f(node)) return false; }`,
+    # no other way out of the loop (break / continue / goto / further returns)
+    wcond = strip(kids(whiles[0])[0])
+    while wcond.get('kind') in ('ImplicitCastExpr', 'CXXMemberCallExpr', 'MemberExpr', 'ExprWithCleanups', 'CXXOperatorCallExpr') and len(kids(wcond)) == 1:
+        wcond = strip(kids(wcond)[0])
+    if not (wcond.get('kind') == 'DeclRefExpr' and member_name(wcond) == 'node'):
+        raise Untranslatable('doForEachIf: the loop condition is not just `node`')
+    if any(x.get('kind') in ('BreakStmt', 'ContinueStmt', 'GotoStmt') for x in walk(wbody)):
+        raise Untranslatable('doForEachIf: break/continue/goto inside the traversal loop')
+    rets = [x for x in walk(wbody) if x.get('kind') == 'ReturnStmt']
+    if len(rets) != 1 or not any(x is rets[0] for x in walk(ifs[0])):
+        raise Untranslatable('doForEachIf: expected exactly one return (inside the guarded visit) in the loop')
+    if len(kids(ifs[0])) != 2:
+        raise Untranslatable('doForEachIf: the guarded visit has an else branch')
+    inner_ifs = [x for x in walk(kids(ifs[0])[1]) if x.get('kind') == 'IfStmt']
+    if len(inner_ifs) != 1:
+        raise Untranslatable('doForEachIf: the guarded visit is not a single `if(! f(node)) return false;`')
 
     def atom(n):
         nm = member_name(n)
